@@ -231,7 +231,7 @@ func Message(fn func()) {
 			return
 		}
 	}
-	attr := &expr.AttributeExpr{}
+	attr := &expr.AttributeExpr{Type: &expr.Object{}}
 	if eval.Execute(fn, attr) {
 		setter(attr)
 	}
@@ -284,7 +284,7 @@ func Message(fn func()) {
 func Metadata(fn func()) {
 	switch e := eval.Current().(type) {
 	case *expr.GRPCEndpointExpr:
-		attr := &expr.AttributeExpr{}
+		attr := &expr.AttributeExpr{Type: &expr.Object{}}
 		if eval.Execute(fn, attr) {
 			e.Metadata = expr.NewMappedAttributeExpr(attr)
 		}
@@ -333,7 +333,7 @@ func Metadata(fn func()) {
 func Trailers(fn func()) {
 	switch e := eval.Current().(type) {
 	case *expr.GRPCResponseExpr:
-		attr := &expr.AttributeExpr{}
+		attr := &expr.AttributeExpr{Type: &expr.Object{}}
 		if eval.Execute(fn, attr) {
 			e.Trailers = expr.NewMappedAttributeExpr(attr)
 		}
